@@ -64,9 +64,18 @@ def gen_twobody(seed, shard, n):
             ev["sw"], ev["lenm"] = 1, fx(C.length_orbit(math.nextafter(0.95, 0.0), a))
         yield ev
         # triangle-feasible distances
-        r = rng.uniform(0.3, 40.0)
+        r = rng.choice([rng.uniform(0.3, 40.0), rng.uniform(0.3, 0.95)])
         R = rng.uniform(0.98, 1.02)
         d = rng.uniform(abs(r - R) + 1e-6, r + R - 1e-6)
+        thin = rng.random()
+        if thin < 0.15 and r < R:
+            # a thin triangle on the inferior-conjunction side: phase angle close to 180 degrees, fraction close to 0
+            d = R - r + 10 ** rng.uniform(-9, -3)
+        elif thin < 0.3:
+            # close to opposition / superior conjunction: phase angle close to 0, fraction close to 1
+            d = (r - R if r > R else r + R) + (1 if r > R else -1) * 10 ** rng.uniform(-9, -3)
+            if not (abs(r - R) < d < r + R):
+                d = rng.uniform(abs(r - R) + 1e-6, r + R - 1e-6)
         i = float(C.phase_angle(r, d, R))
         k = C.illuminated_fraction(r, d, R)
         yield {"k": "pha", "rf": r, "df": d, "Rf": R, "r": fx(r), "d": fx(d), "R": fx(R), "i": fx(i), "kf": fx(k),
